@@ -910,6 +910,121 @@ func tlLongHold(s *Stream, L, Q int, hold time.Duration) {
 	s.Nontrivial(fmt.Sprintf("long-hold/%d/%d/%v", L, Q, hold))
 }
 
+// ---- scenario: a lane with a long life (C06) -------------------------------------------------------------
+
+// countTask counts its starts in a slot of a shared array (no lock: tens of thousands of tiny tasks).
+type countTask struct {
+	slot *atomic.Int32
+}
+
+func (t *countTask) Start() { t.slot.Add(1) }
+
+// tlLongLife: producers push many tiny tasks (more than any per-worker or per-lane counter a lane might keep
+// is likely to be sized for); every accepted task is started exactly once.
+func tlLongLife(s *Stream, rng *Rng, L, Q, producers, perProducer int) {
+	sc := tlScenario{Kind: "long-life", L: L, Q: Q, Seed: rng.s, NTasks: producers * perProducer,
+		Detail: fmt.Sprintf("%d producers x %d tiny tasks", producers, perProducer)}
+	ctx, cancel := context.WithCancel(context.Background())
+	defer cancel()
+	tl := tasklane.New(ctx, L, Q)
+	tl.SetTimeout(tlDeadline)
+	slots := make([]atomic.Int32, producers*perProducer)
+	accepted := make([]bool, producers*perProducer)
+	var wg sync.WaitGroup
+	for p := 0; p < producers; p++ {
+		wg.Add(1)
+		go func(p int) {
+			defer wg.Done()
+			for i := 0; i < perProducer; i++ {
+				id := p*perProducer + i
+				lane := (p + i%3) % L
+				accepted[id] = tl.PushTask(&countTask{&slots[id]}, lane) == nil
+			}
+		}(p)
+	}
+	done := make(chan struct{})
+	go func() { wg.Wait(); close(done) }()
+	select {
+	case <-done:
+	case <-time.After(90 * time.Second):
+		s.Violate("push-does-not-return", "producers of tiny tasks did not finish within 90 s", sc)
+		return
+	}
+	waitUntil(tlDeadline, func() bool { return tl.Status().PendingTask == 0 })
+	time.Sleep(5 * time.Millisecond)
+	var never, twice []int
+	nAcc := 0
+	for id := range slots {
+		n := int(slots[id].Load())
+		if accepted[id] {
+			nAcc++
+		}
+		switch {
+		case accepted[id] && n == 0:
+			never = append(never, id)
+		case n > 1:
+			twice = append(twice, id)
+		case !accepted[id] && n > 0:
+			s.Violate("rejected-task-started", fmt.Sprintf("task %d was started although PushTask returned an error", id), sc)
+		}
+	}
+	if len(never) > 0 {
+		// give stragglers the full deadline before judging
+		waitUntil(tlDeadline, func() bool {
+			for _, id := range never {
+				if slots[id].Load() == 0 {
+					return false
+				}
+			}
+			return true
+		})
+		var still []int
+		for _, id := range never {
+			if slots[id].Load() == 0 {
+				still = append(still, id)
+			}
+		}
+		if len(still) > 0 {
+			s.Violate("accepted-task-not-started", fmt.Sprintf("%d of %d accepted tiny tasks were never started (context live, nothing running), first: task %d = push number %d of its producer", len(still), nAcc, still[0], still[0]%perProducer+1), sc)
+		}
+	}
+	if len(twice) > 0 {
+		s.Violate("started-twice", fmt.Sprintf("%d tasks were started more than once, first: task %d (%d starts)", len(twice), twice[0], slots[twice[0]].Load()), sc)
+	}
+	cancel()
+	tl.Wait()
+	s.Evaluations++
+	s.Count(fmt.Sprintf("long-life.L%d.Q%d", L, Q))
+	s.Nontrivial(fmt.Sprintf("long-life/%d/%d/%d", L, Q, producers))
+}
+
+// tlIdleThenPush: a lane whose workers have had nothing to do for a while takes the next task like any other.
+func tlIdleThenPush(s *Stream, L, Q int, idle time.Duration) {
+	sc := tlScenario{Kind: "idle-then-push", L: L, Q: Q, Detail: idle.String()}
+	ctx, cancel := context.WithCancel(context.Background())
+	defer cancel()
+	tl := tasklane.New(ctx, L, Q)
+	tl.SetTimeout(tlDeadline)
+	r := newTLRun()
+	var pushes []tlPush
+	for i := 0; i < L; i++ {
+		pushes = append(pushes, tlPush{i, i, tl.PushTask(&tlTask{id: i, r: r}, i)})
+	}
+	waitUntil(tlDeadline, func() bool { _, fin, _, _ := r.snapshot(); return fin == L })
+	time.Sleep(idle)
+	for i := 0; i < L; i++ {
+		pushes = append(pushes, tlPush{100 + i, i, tl.PushTask(&tlTask{id: 100 + i, r: r}, i)})
+	}
+	if !waitUntil(tlDeadline, func() bool { _, fin, _, _ := r.snapshot(); return fin == 2*L }) {
+		_, fin, _, _ := r.snapshot()
+		s.Violate("accepted-task-not-started", fmt.Sprintf("after %v without work, %d of %d newly accepted tasks were not started", idle, 2*L-fin, L), sc)
+	}
+	cancel()
+	tlFinalChecks(s, sc, tl, r, pushes, ctx)
+	s.Evaluations++
+	s.Nontrivial(fmt.Sprintf("idle-then-push/%d/%d/%v", L, Q, idle))
+}
+
 // ---- scenario: odd lifetimes (C07) -----------------------------------------------------------------
 
 // tlOddLifetimes: (a) a lane built on an already cancelled / expired context: PushTask returns the
@@ -1309,7 +1424,7 @@ func runTL(cfg Cfg, name string) {
 	maxL, maxQ := cfg.N(3, 4), cfg.N(2, 3)
 	switch name {
 	case "tl_exact":
-		s.Rule = "random stress: lanes 1..4 x queue 0..3, 3 producers pushing to arbitrary lanes with timeouts from 0, random task durations, panicking tasks, with and without cancellation after a random number of pushes; oracle: every accepted task started exactly once when the context stays live, no rejected task started, never twice; non-trivial = a run in which at least one task was accepted (distinct by configuration and outcome counts)"
+		s.Rule = "random stress: lanes 1..4 x queue 0..3, 3 producers pushing to arbitrary lanes with timeouts from 0, random task durations, panicking tasks, with and without cancellation after a random number of pushes; a lane idle for 2.2 s; one and four producers pushing 40 000 / 4 x 30 000 tiny tasks (thorough: 150 000 each); oracle: every accepted task started exactly once when the context stays live, no rejected task started, never twice; non-trivial = a run in which at least one task was accepted (distinct by configuration and outcome counts)"
 		for i := 0; i < cfg.N(120, 1500); i++ {
 			if tlEnough(s) {
 				break
@@ -1317,6 +1432,9 @@ func runTL(cfg Cfg, name string) {
 			tlStress(s, rng.Fork(), i%2 == 1, false)
 		}
 		tlLongHold(s, 2, 1, 1300*time.Millisecond)
+		tlIdleThenPush(s, 2, 1, 2200*time.Millisecond)
+		tlLongLife(s, rng.Fork(), 1, 2, 1, cfg.N(40000, 150000))
+		tlLongLife(s, rng.Fork(), 4, 1, 4, cfg.N(30000, 150000))
 		if cfg.Thorough() {
 			tlLongHold(s, 3, 0, 2500*time.Millisecond)
 			tlLongHold(s, 1, 2, 5500*time.Millisecond)
